@@ -96,7 +96,15 @@ class Gen:
         items = [self.item() for _ in range(self.r.randint(lo, hi))]
         txt = b""
         for i, (t, _) in enumerate(items):
-            if i: txt += self.ws() + b"," + (b"," if self.r.random() < 0.08 else b"") + self.ws()
+            if i:
+                prev = items[i - 1][0].rstrip(b" \t")
+                plain_left = prev[-1:] not in (b">", b";", b")") and b"<" not in items[i - 1][0] and b":" not in items[i - 1][0]
+                plain_right = b"<" not in t and b":" not in t and t[:1] not in (b"(", b" ", b"\t", b"\n")
+                after_angle = prev.endswith(b">") and b":" not in items[i - 1][0]
+                if self.r.random() < 0.12 and ((plain_left and plain_right) or (after_angle and b":" not in t)):
+                    txt += b" "                                  # the comma is missing: two words meet / an address follows '>'
+                else:
+                    txt += self.ws() + b"," + (b"," if self.r.random() < 0.08 else b"") + self.ws()
             txt += t
         return txt, [v for _, vs in items for v in vs]
 
@@ -295,6 +303,11 @@ def main():
             allh.append((name + b": " + txt + b"\n", name, vals))
             if name.startswith(b"Resent"): resent = True
         if resent and rng.random() < 0.5: allh.append((b"Resent-From: r@x.example\n", None, None))
+        if rng.random() < 0.25:
+            # any single Resent-* field makes the message a resent one: only the Resent-To/Cc/Bcc recipients count
+            allh.append((rng.choice([b"Resent-Message-ID: <r1@x.example>\n", b"Resent-Date: 1 Jan 2000 00:00:00 -0000\n", b"Resent-Sender: rs@x.example\n",
+                                     b"Resent-Reply-To: rr@x.example\n", b"Resent-From: rf@x.example\n", b"resent-message-id: <r2@x.example>\n"]), None, None))
+            resent = True
         rng.shuffle(allh)
         for ftxt, name, vals in allh:
             if name is None: continue
